@@ -11,6 +11,10 @@ import SwV.Model.C06
 import SwV.Spec.C06
 import SwV.Gen.C06
 import SwV.Lemmas.C06
+import SwV.Model.C06RS
+import SwV.Lemmas.C06RS
+import SwV.Lemmas.C06Certs
+import SwV.Lemmas.C06MDS
 
 namespace SwV.Props.C06
 open SwV.Model.C06 SwV.Spec.C06 SwV.Lemmas.C06
@@ -250,5 +254,79 @@ theorem enc_layout_production (strict : Bool) (D : List Nat) :
     (List.range genK).map (dataShard ⟨genK, genL, genS, 256 * 1024, strict⟩ D) = layout genK genL genS strict D :=
   enc_layout ⟨genK, genL, genS, 256 * 1024, strict⟩ D (show 0 < genK by decide) (show 0 < genL by decide) (show 0 < genS by decide)
     (show 0 < 256 * 1024 by decide) (show (256 * 1024) ∣ genL by decide) (show (256 * 1024) ∣ genS by decide)
+
+/-! ### the concrete Reed–Solomon code: MDS is a theorem, not an assumption
+
+`rsParity` (SwV/Model/C06RS.lean) is the parity part of the encoding matrix of `reedsolomon.New(10, 4)`; the
+harness recovers the matrix from the real library (encoding the ten unit vectors) and the driver compares it
+with `rsParity` on every run (`config` line).  GF(2^8) is the model's `gfMul` (polynomial 0x11D), whose field
+laws are proved in SwV/Lemmas/C06RS.lean. -/
+
+/-- the literal matrix is what `buildMatrix(10, 14)` constructs: vandermonde(14,10) · (top square)⁻¹, computed
+    here with the model's GF(2^8) arithmetic and Gauss–Jordan inversion -/
+theorem rs_matrix_is_buildMatrix : rsMatrixBuilt = some (generator 10 rsParity) := by decide +kernel
+
+/-- GF(2^8) multiplication of the model is commutative, associative, distributes over xor, has unit 1 — on bytes -/
+theorem gf256_laws (a b c : Nat) (ha : a < 256) (hb : b < 256) (hc : c < 256) :
+    gfMul a b = gfMul b a ∧ gfMul a (gfMul b c) = gfMul (gfMul a b) c ∧
+    gfMul a (b ^^^ c) = gfMul a b ^^^ gfMul a c ∧ gfMul 1 a = a ∧ gfMul a b < 256 :=
+  ⟨gfMul_comm a b ha hb, gfMul_assoc a b c ha hb hc, gfMul_add_right a b c, gfMul_one_left a ha, gfMul_lt a b ha⟩
+
+/-- MDS, matrix form: for EVERY erasure pattern that loses at most 4 of the 14 shards (all 1471 patterns, i.e.
+    every 10-row subset of the 14×10 generator matrix, C(14,10) = 1001 of them, arises as `selectedRows`), the ten
+    selected rows of `[I ; rsParity]` have a left inverse over GF(2^8): a 10×10 byte matrix `inv` with
+    `inv · rows = I`, hence `inv · (rows · d) = d` for every data column `d` -/
+theorem rs_mds (mask : List Bool) (hm : mask.length = 14) (hl : (mask.filter (· == false)).length ≤ 4) :
+    ∃ inv : List (List Nat),
+      (selectedRows mask).length = 10 ∧ (∀ row ∈ inv, IsBytes row) ∧
+      inv.map (fun row => vecMat 10 row (selectedRows mask)) = (List.range 10).map (identityRow 10) ∧
+      ∀ d : List Nat, d.length = 10 → IsBytes d → matVec inv (matVec (selectedRows mask) d) = d := by
+  obtain ⟨c, _, hc⟩ := certDM_spec mask hm hl
+  obtain ⟨h1, h2, h3⟩ := checkCert_spec mask c hc
+  refine ⟨unpackInv c, h1, unpackInv_bytes c, h3, ?_⟩
+  intro d hd hb
+  have e1 : matVec (unpackInv c) (matVec (selectedRows mask) d)
+      = ((unpackInv c).map (fun row => vecMat 10 row (selectedRows mask))).map (fun r => gfDot r d) := by
+    unfold matVec
+    rw [List.map_map]
+    apply List.map_congr_left
+    intro row hrow
+    exact gfDot_matVec 10 d hb row (selectedRows mask) (unpackInv_bytes c row hrow) h2
+  rw [e1, h3]
+  exact matVec_identity10 d hd hb
+
+/-- MDS, as the design states it: any 10 of the 14 bytes of a codeword column determine the data column (and
+    with it the other 4 bytes) -/
+theorem rs_any_ten_determine (d d' : List Nat) (hd : d.length = 10) (hd' : d'.length = 10)
+    (hb : IsBytes d) (hb' : IsBytes d') (mask : List Bool) (hm : mask.length = 14)
+    (hl : (mask.filter (· == false)).length ≤ 4)
+    (hagree : ∀ i, mask.getD i false = true →
+      (d ++ matVec rsParity d).getD i 0 = (d' ++ matVec rsParity d').getD i 0) : d = d' :=
+  rs_determines_data d d' hd hd' hb hb' mask hm hl hagree
+
+/-- the assumption `MDS` of `ec_rebuild`, proved for the concrete codec on byte columns: the model decoder
+    (`gfRecon`, the one the driver runs against `Reconstruct`, with the certified decoding matrix) returns the
+    whole codeword from any erasure pattern losing at most 4 shards -/
+theorem rs_codec_mds : MDSBytes rsCodec 10 4 := rsCodec_mdsBytes
+
+/-- `ec_rebuild` WITHOUT the MDS hypothesis: for the concrete Reed–Solomon codec any set of at most 4 lost shards
+    is regenerated byte-identically over every range of columns in which the 14 shards are codewords of bytes -/
+theorem ec_rebuild_concrete (shards : List (List Nat)) (mask : List Bool)
+    (hmask : mask.length = 14) (hlost : (mask.filter (· == false)).length ≤ 4)
+    (start cnt : Nat) (hcw : ∀ p, start ≤ p → p < start + cnt → IsByteCodewordAt rsCodec 10 4 shards p) :
+    reconChunk rsCodec (eraseShards shards mask) start cnt
+      = some ((List.range cnt).map fun t => columnAt shards (start + t)) :=
+  reconChunk_codewords_bytes rsCodec 10 4 rsCodec_mdsBytes shards mask hmask hlost cnt start hcw
+
+/-- non-vacuity: a column of bytes with its parity is a byte codeword; a 4-shard loss; and the decoder run -/
+example : IsByteCodewordAt rsCodec 10 4
+    ((([1, 2, 3, 4, 5, 6, 7, 8, 9, 10] : List Nat) ++ matVec rsParity [1, 2, 3, 4, 5, 6, 7, 8, 9, 10]).map fun x => [x]) 0 :=
+  ⟨[1, 2, 3, 4, 5, 6, 7, 8, 9, 10], rfl, by decide, by decide, by decide⟩
+example : ([false, true, false, true, true, false, true, true, true, true, true, true, false, true].filter (· == false)).length ≤ 4 := by
+  decide
+set_option maxRecDepth 100000 in
+example : rsCodec.recon (eraseCol ([1, 2, 3, 4, 5, 6, 7, 8, 9, 10] ++ matVec rsParity [1, 2, 3, 4, 5, 6, 7, 8, 9, 10])
+      [false, true, false, true, true, false, true, true, true, true, true, true, false, true])
+    = some ([1, 2, 3, 4, 5, 6, 7, 8, 9, 10] ++ matVec rsParity [1, 2, 3, 4, 5, 6, 7, 8, 9, 10]) := by decide +kernel
 
 end SwV.Props.C06
